@@ -439,8 +439,10 @@ func c09Field(c *core.Ctx, k *core.Case) {
 				}
 				ev.set(prior)
 				var arg reflect.Value
+				var argBytes []byte
 				if isSlice {
-					arg = reflect.ValueOf(cloneB(val))
+					argBytes = cloneB(val)
+					arg = reflect.ValueOf(argBytes)
 				} else {
 					arg = reflect.New(setM.Type().In(0)).Elem()
 					for j := 0; j < fw; j++ {
@@ -448,6 +450,10 @@ func c09Field(c *core.Ctx, k *core.Case) {
 					}
 				}
 				setM.Call([]reflect.Value{arg})
+				// the value slice stays the caller's: overwriting it after the call must not reach the element
+				for j := range argBytes {
+					argBytes[j] ^= 0xff
+				}
 				ev.get(&post)
 				evals++
 				want.iei, want.ln = prior.iei, prior.ln
@@ -563,7 +569,7 @@ func init() {
 			"SetLen of a Buffer-backed element is the documented allocator (Len=n, len(Buffer)=n, contents unspecified)",
 			"Buffer-backed elements are at least as long as their declared extent",
 		},
-		Oracles: map[string]func(*core.Ctx, *core.Case){"field": c09Field, "dnn": c09DNN},
+		Oracles: map[string]func(*core.Ctx, *core.Case){"cold-concurrent": coldConcurrent, "field": c09Field, "dnn": c09DNN},
 		Exhaustive: func(tier string) (bool, string) {
 			if tier == "thorough" {
 				return true, "all values of every uint8 and uint16 accessor parameter; prior states sampled"
@@ -700,6 +706,7 @@ func init() {
 			}
 			c.Eval(1)
 		}})
+		us = append(us, coldUnit("nasType", "accessor"))
 		return us
 	}
 	core.Register(p)
